@@ -3,8 +3,10 @@ package props
 import (
 	"fmt"
 	"strings"
+	"sync"
 
 	"go.pennock.tech/tabular"
+	"go.pennock.tech/tabular/texttable/decoration"
 
 	"verifharness/internal/gen"
 )
@@ -77,8 +79,8 @@ func init() {
 	register(&Prop{
 		ID:    "C09",
 		Level: "exploration",
-		Rule: "phase 0 (exhaustive): every sequence of up to L building operations (L=4 quick, L=5 thorough) over the 13-operation alphabet {AddHeaders(0|1|2 items), AddRowItems(0|1|3), AddSeparator, AppendNewRow, Add on the last row handle, AddRow(prebuilt 0|2 cells), Add on AllRows()[last] (possibly a separator), AddRow(NewRowSizedFor+1)} crossed with 6 item flavours (plain, multi-line, declared size below/above actual, unicode/invalid, empty/nil/rune); " +
-			"phase 1: the same at length 6 for the two size-lying flavours (thorough only); phase 2: random sequences of up to 40 operations with items from the whole item zoo. Every resulting table is rendered through csv/html/json/markdown wrappers, a text wrapper under every registered decoration, and auto.Render for every listed style, under a panic guard. " +
+		Rule: "phase 0 (exhaustive): every sequence of up to L building operations (L=3 quick, L=5 thorough) over the 13-operation alphabet {AddHeaders(0|1|2 items), AddRowItems(0|1|3), AddSeparator, AppendNewRow, Add on the last row handle, AddRow(prebuilt 0|2 cells), Add on AllRows()[last] (possibly a separator), AddRow(NewRowSizedFor+1)} crossed with 6 item flavours (plain, multi-line, declared size below/above actual, unicode/invalid, empty/nil/rune); " +
+			"phase 1 (exhaustive): all sequences of length L+1 for the flavour whose items declare less than they have (and, in quick, the plain flavour); phase 2: random sequences of up to 40 operations with items from the whole item zoo. Every resulting table is rendered through csv/html/json/markdown wrappers, a text wrapper under every registered decoration (the six built-ins plus one complete and seven partially filled, never Populate()d decorations registered by the check), and (for every 8th sequence of the exhaustive phases and all random ones) auto.Render for every listed style, under a panic guard. " +
 			"Distinct = distinct (sequence, flavour) pairs; non-trivial = the table has at least one row or header.",
 		Assumptions: []string{
 			"tables are built through the public building API only (custom Table implementations that misreport NColumns are outside the statement)",
@@ -86,20 +88,26 @@ func init() {
 			"alignment / skipable property values of the wrong type are outside the statement (documented panics)",
 		},
 		Phases: []Phase{
-			{Name: "all build sequences up to length L x 6 flavours", Exhaustive: true,
+			{Name: "all build sequences up to length L (3 quick, 5 thorough) x 6 flavours", Exhaustive: true,
 				N: func(th bool) int {
 					if th {
 						return c09SeqCount(5) * nf
 					}
-					return c09SeqCount(4) * nf
+					return c09SeqCount(3) * nf
 				}, Run: func(c *Ctx, i int, r *gen.R) { c09Exh(c, i/nf, i%nf) }},
-			{Name: "all build sequences of length 6 x 2 size-lying flavours (thorough only)", Exhaustive: true,
+			{Name: "all build sequences of length L+1 (4 quick, 6 thorough) for the flavours 'plain' (quick only) and 'declares less than it has'", Exhaustive: true,
 				N: func(th bool) int {
 					if th {
-						return (c09SeqCount(6) - c09SeqCount(5)) * 2
+						return c09SeqCount(6) - c09SeqCount(5)
 					}
-					return 0
-				}, Run: func(c *Ctx, i int, r *gen.R) { c09Exh(c, c09SeqCount(5)+i/2, 2+i%2) }},
+					return (c09SeqCount(4) - c09SeqCount(3)) * 2
+				}, Run: func(c *Ctx, i int, r *gen.R) {
+					if c.Thorough {
+						c09Exh(c, c09SeqCount(5)+i, 2)
+					} else {
+						c09Exh(c, c09SeqCount(3)+i/2, []int{0, 2}[i%2])
+					}
+				}},
 			{Name: "random sequences up to 40 operations, whole item zoo", N: Fixed(3000, 300000), Run: c09Random},
 		},
 	})
@@ -182,7 +190,7 @@ func c09Exh(c *Ctx, seqIdx, flavour int) {
 	if c.Rec.WantSample() && len(seq) >= 3 {
 		c.Rec.Sample(desc)
 	}
-	c09RenderAll(c, b.t, desc)
+	c09RenderAll(c, b.t, desc, seqIdx%8 == 0)
 }
 
 func c09Random(c *Ctx, i int, r *gen.R) {
@@ -211,11 +219,39 @@ func c09Random(c *Ctx, i int, r *gen.R) {
 	}
 	desc["items"] = specs
 	c.Rec.Eval(gen.Hash64(fmt.Sprint(seq), fmt.Sprint(len(specs))), true)
-	c09RenderAll(c, b.t, desc)
+	c09RenderAll(c, b.t, desc, true)
 }
 
-func c09RenderAll(c *Ctx, t tabular.Table, desc map[string]interface{}) {
-	routes := append(DirectRoutes(), AutoRoutes()...)
+var c09RegisterOnce sync.Once
+
+// c09RegisterDecorations adds application-registered decorations to this process's registry, so that
+// "every registered decoration" is more than the six built-ins: complete custom ones and
+// partially filled ones which were never completed with Populate (only some glyph fields set).
+func c09RegisterDecorations() {
+	c09RegisterOnce.Do(func() {
+		full := decoration.Decoration{Horizontal: "=", Vertical: ":", CrossPiece: "*"}
+		full.Populate()
+		decoration.RegisterDecorationName("c09-custom-complete", full)
+		for name, d := range map[string]decoration.Decoration{
+			"c09-partial-inner-divider-only": {VBodyInner: "|"},
+			"c09-partial-border-only":        {VBodyBorder: "#"},
+			"c09-partial-horizontal-only":    {Horizontal: "-"},
+			"c09-partial-header-and-inner":   {VHeader: "!", VBodyInner: "|"},
+			"c09-partial-crosspiece-only":    {CrossPiece: "+"},
+			"c09-partial-rules-no-verticals": {HOuter: "=", HRule: "-", TopLeft: "/", TopRight: "\\", BottomLeft: "\\", BottomRight: "/"},
+			"c09-partial-right-border-only":  {VBodyBorder: "", VHeader: ">", HBRight: "]"},
+		} {
+			decoration.RegisterDecorationName(name, d)
+		}
+	})
+}
+
+func c09RenderAll(c *Ctx, t tabular.Table, desc map[string]interface{}, withAuto bool) {
+	c09RegisterDecorations()
+	routes := DirectRoutes()
+	if withAuto {
+		routes = append(routes, AutoRoutes()...)
+	}
 	for _, rt := range routes {
 		var s string
 		var err error
@@ -235,7 +271,7 @@ func c09RenderAll(c *Ctx, t tabular.Table, desc map[string]interface{}) {
 			}
 		} else {
 			c.Rec.Count("renders_returning_text", 1)
-			if strings.HasPrefix(rt.Format, "text:") && rt.Format != "text:none" && s == "" {
+			if strings.HasPrefix(rt.Format, "text:utf8-") && s == "" {
 				c.Rec.Violate("empty-output-no-error:"+rt.Format, fmt.Sprintf("%s returned neither text nor an error", rt.Name), d)
 			}
 		}
